@@ -17,7 +17,25 @@ FAULTS = {
     'absent-stream-id': ('ghost', ('qartod', 'gross_range_test', {'fail_span': [Fr(0), Fr(10)]})),
     'raises-on-data': ('b', ('qartod', 'attenuated_signal_test', {'suspect_threshold': Fr(2), 'fail_threshold': Fr(1), 'check_type': 'nonsense'})),
     'needs-depth': ('a', ('qartod', 'density_inversion_test', {'suspect_threshold': Fr(-1)})),     # only a fault on a table without z
+    'unknown-dotted-module': ('a', ('qartod.extras', 'some_test', {'x': 1})),
+    'unknown-nested-module': ('b', ('vendor.checks', 'some_test', {'x': 1})),
 }
+
+
+# "it raises while evaluating the data": whatever the exception.  The test function of these entries is replaced (interpreter hook) by one
+# that raises the named exception when called, so the rule does not depend on finding an input that provokes each type.
+RAISING = ['AttributeError', 'RuntimeError', 'KeyError', 'IndexError', 'ZeroDivisionError', 'OverflowError', 'NotImplementedError', 'OSError',
+           'StopIteration', 'AssertionError', 'TypeError', 'ValueError']
+for _exc in RAISING:
+    FAULTS[f'raises-{_exc}'] = ('a', ('qartod', 'density_inversion_test', {'suspect_threshold': Fr(-1)}))
+
+
+def raising_hook(exc):
+    from ..interp import AbsRaise, ExcVal
+
+    def hook(interp, fv, args, kwargs, node):
+        raise AbsRaise(ExcVal(exc, ('raised by the QC function',)), node)
+    return {'ioos_qc.qartod.density_inversion_test': hook}
 
 
 def healthy():
@@ -65,7 +83,11 @@ def run(ck):
             for fname, (sid, entry) in FAULTS.items():
                 if fname == 'needs-depth' and 'z' in table.axes:
                     continue
+                if fname.startswith('raises-') and fname != 'raises-on-data' and not thorough and (fe not in ('numpy', 'pandas') or tname != 'all-axes'):
+                    continue
                 places = ['first', 'middle', 'last'] if thorough else ['first', 'last']
+                if fname.startswith('raises-') and fname != 'raises-on-data' and not thorough:
+                    places = ['middle']
                 for where in places:
                     contexts = [dict(window=(None, None), tests=insert(healthy(), sid, entry, where))]
                     check_run(ck, fe, tname, fname, where, table, contexts, base_map, entry, sid)
@@ -78,7 +100,15 @@ def run(ck):
 
 def check_run(ck, fe, tname, fname, where, table, contexts, base_map, entry, sid):
     label = f'{fe}[{tname}] fault={fname} at {where}'
-    run = run_frontend(ck.runner, fe, table, make_config_source(contexts))
+    hooks = ck.runner.interp.hooks
+    saved = dict(hooks)
+    if fname.startswith('raises-') and fname != 'raises-on-data':
+        hooks.update(raising_hook(fname.split('-', 1)[1]))
+    try:
+        run = run_frontend(ck.runner, fe, table, make_config_source(contexts))
+    finally:
+        hooks.clear()
+        hooks.update(saved)
     ck.count(1, distinct=(fe, tname, fname, where))
     if run.error is not None:
         from ..repo import unparse
